@@ -2,6 +2,7 @@ import PV.Model.Eval
 import PV.Model.Ops
 import PV.Model.Traverse
 import PV.Driver.GAOps
+import PV.Driver.CCodeOps
 import PV.Driver.MemoOps
 import PV.Driver.UnifyOps
 import PV.Driver.RewriteOps
@@ -198,6 +199,7 @@ def handlers : List (Sexp → Option Sexp) :=
    , handleRewrite
    , handleUnify
    , handleMemo
+   , handleCCode
    -- HANDLERS
   ]
 
